@@ -233,8 +233,93 @@ def early_one(sc, seed=0, keep=False):
     finally:
         net.close()
 
+def mixed_one(sc, seed=0, keep=False):
+    """one stack E is responder of a transfer whose originator Q vanishes (after its RTS / after its first data packet) and at
+    the same time originator of a transfer whose responder P vanishes after its CTS: each session is given up within its own
+    time-out (the receive session is not kept until the longer time-out of the send session has run out)"""
+    from ..scen import Net
+    dll = sc['dll']
+    seg = 7 if dll == 'j1939-21' else 60
+    nsc = {'dll': dll, 'base_lat': 1e-3, 'stacks': [{'name': 'E', 'cas': [0x10], 'win': 255}, {'name': 'P', 'cas': [0x20], 'win': 255},
+                                                     {'name': 'Q', 'cas': [0x30], 'win': 1}]}
+    net = Net(nsc)
+    try:
+        w, bus = net.w, net.bus
+        E, P, Q = net.stacks
+        cmpf = 0xEC if dll == 'j1939-21' else 0x4D
+        qn = {'n': 0}
+
+        def tap(fr):
+            if fr.src == 'Q':
+                qn['n'] += 1
+                if qn['n'] == sc['q_frames'] and Q.silent_from is None:
+                    Q.silent_from = fr.idx + 1          # Q has sent q_frames frames and is gone
+            if fr.src == 'P' and fr.pf == cmpf and P.silent_from is None:
+                P.silent_from = fr.idx + 1              # P has sent its clear-to-send and is gone
+        bus.taps.append(tap)
+        t0 = w.now
+        first, second = (('Q', 'E') if sc['order'] == 'in_first' else ('E', 'Q'))
+        for who in (first, second):
+            if who == 'Q':
+                net.submit({'src': 0x30, 'kind': 'p2p', 'dst': 0x10, 'size': seg * 3 - 1, 'pat': 1}, seed)
+            else:
+                net.submit({'src': 0x10, 'kind': 'p2p', 'dst': 0x20, 'size': seg * sc['out_packets'] - 2, 'pat': 2}, seed + 1)
+            w.run_for(sc['gap'])
+        dl = E.ecu.j1939_dll
+        t_rcv = t_snd = None
+        seen_rcv = seen_snd = False
+        end = w.now + 5.0
+        while w.now < end:
+            w.run_for(STEP)
+            seen_rcv = seen_rcv or bool(dl._rcv_buffer)
+            seen_snd = seen_snd or bool(dl._snd_buffer)
+            if t_rcv is None and seen_rcv and not dl._rcv_buffer:
+                t_rcv = w.now
+            if t_snd is None and seen_snd and not dl._snd_buffer:
+                t_snd = w.now
+        probs = []
+        if not (seen_rcv and seen_snd):
+            probs.append("HARNESS: the two sessions of E were not both open (receive: %s, send: %s)" % (seen_rcv, seen_snd))
+        last_q = max([t for (t, idx) in E.rx_log if bus.log[idx].src == 'Q'] or [t0])
+        last_e = max([f.t for f in bus.log if f.src == 'E' and f.ps == 0x20 and not is_abort(dll, f, 0x10, 0x20)] or [t0])
+        lim_r = 1.25 + SLACK + STEP + 2e-3
+        lim_s = (3.0 if dll == 'j1939-22' else 1.25) + SLACK + STEP + 2e-3
+        if t_rcv is None:
+            probs.append("E still holds the receive session of the vanished originator %.2f s after its last frame" % (w.now - last_q))
+        elif t_rcv - last_q > lim_r:
+            probs.append("E gave the receive session of the vanished originator up %.2f s after its last frame (time-out 1.25 s) while a send session of its own was waiting" % (t_rcv - last_q))
+        if t_snd is None:
+            probs.append("E still holds the send session towards the vanished responder %.2f s after its last frame" % (w.now - last_e))
+        elif t_snd - last_e > lim_s:
+            probs.append("E gave the send session towards the vanished responder up %.2f s after its last frame" % (t_snd - last_e))
+        if not any(is_abort(dll, f, 0x10, 0x30) for f in bus.log):
+            probs.append("E sent no connection abort to the vanished originator")
+        probs += net.job_problems()
+        outcome = [(f.src, f.can_id, f.data) for f in bus.log]
+        return [], probs, outcome, net.trace() if keep else None
+    finally:
+        net.close()
+
+
+def mixed_worker(item):
+    _k, dll, seed = item
+    acc = Acc()
+    for order in ('in_first', 'out_first'):
+        for q_frames in (1, 2):
+            for out_packets in (2, 5):
+                for gap in (0.0005, 0.005, 0.05):
+                    sc = {'mixed': True, 'dll': dll, 'order': order, 'q_frames': q_frames, 'out_packets': out_packets, 'gap': gap}
+                    _p, probs, outcome, _ = mixed_one(sc, seed)
+                    acc.case(repr(sorted(sc.items())), nontrivial=True, outcome=outcome)
+                    if probs:
+                        acc.violation(csig(probs), sc, (), probs[:4])
+    acc.sample({'mixed': 'E is responder of a vanished originator and originator towards a vanished responder at once', 'dll': dll})
+    return acc
+
 
 def worker(item):
+    if item[0] == 'mixed':
+        return mixed_worker(item)
     shape, bound, seed = item
     acc = Acc()
     if shape.get('early_family'):
@@ -318,7 +403,8 @@ def shapes(tier):
 RULE = ("shape = data link layer x {RTS/CTS, BAM} x 2..12 packets x window pair; for every shape the fault-free run "
         "numbers the bus frames, then every single frame k is lost and either peer falls silent from every frame k "
         "on; each faulty run is followed by a fresh transfer on the same pair; 4-packet shapes also with receive time stamps 0.0 / 30 s ahead / "
-        "30 s behind the clock; thorough adds every single "
+        "30 s behind the clock; one stack that is responder of a vanished originator and originator towards a vanished responder at the same time "
+        "(2 orders x 2 silence points x 2 sizes x 3 offsets per layer); thorough adds every single "
         "latency / wake-latency deviation on the shapes of up to 5 packets; distinct by (shape, fault, choices), non-trivial if a fault is injected")
 ASSUME = ["give-up time polled every 10 ms; allowance = standard timeout + 30 ms + the latencies the run chose",
           "a silenced peer neither sends nor receives from frame k on; its own clean-up is judged too",
@@ -349,11 +435,21 @@ def run(tier, seed):
                 items.append(({'dll': dll, 'stacks': two(1, 1), 'base_lat': 1e-3, 'early_family': True,
                                'msgs': [msg(0x10, kind, dst, seg * npk - 1)]}, 0, seed))
     items.sort(key=lambda it: -it[0]['msgs'][0]['size'])
+    items += [('mixed', dll, seed) for dll in ('j1939-21', 'j1939-22')]
     return run_check(PROP, tier, seed, 'fault_enumeration', items, worker, RULE, ASSUME,
                      bounds={'deviation_bound': bound, 'packets': '2..12', 'faults': 'every lost frame, every silence point of either peer'})
 
 
 def replay(rec):
+    if rec['scenario'].get('mixed'):
+        points, probs, outcome, trace = mixed_one(rec['scenario'], rec.get('seed', 0), keep=True)
+        print("\n".join(trace))
+        if probs:
+            print("REPRODUCED: " + "; ".join(probs[:4]))
+            print("VIOLATION property=%s replay=(this file)" % PROP)
+            return 1
+        print("no violation on this tree")
+        return 0
     if rec['scenario'].get('early') is not None:
         points, probs, outcome, trace = early_one(rec['scenario'], rec.get('seed', 0), keep=True)
         print("\n".join(trace))
